@@ -29,8 +29,9 @@ def dec (e : IEntry) : Nat × ACmd := (e.1, decode e.2)
 def inflight (s : St) : List Batch := s.holding.toList ++ s.queue
 
 /-- Inductive invariant of the three-actor system (`L0`, `kv0`: values at the start). -/
-structure Inv (L0 : Nat) (kv0 : KV) (s : St) : Prop where
+structure Inv (L0 : Nat) (kv0 : KV) (B : Nat) (s : St) : Prop where
   noEmpty : ∀ p ∈ s.log, p ≠ Payload.empty
+  base0 : s.base = 0
   le : L0 ≤ s.lastApplied
   inLog : frontier s ≤ s.log.length
   applied : s.applied = (seg s.log L0 s.lastApplied).map dec
@@ -39,37 +40,67 @@ structure Inv (L0 : Nat) (kv0 : KV) (s : St) : Prop where
   queue : s.workerDead = false →
     (inflight s).flatten = seg s.log s.lastApplied (frontier s) ∧ ∀ b ∈ inflight s, b ≠ []
   deadHold : s.workerDead = true → s.holding = none
+  /-- `B` bounds every commit index announced so far: nothing beyond it is dispatched. -/
+  bnd : frontier s ≤ max L0 B ∧ s.pending ≤ B ∧ ∀ c ∈ s.notif, c ≤ B
+  /-- `dispatched_up_to` is behind `last_applied` only while nothing has been applied since the handler was built. -/
+  stale : s.startLa ≤ s.lastApplied ∧ (s.dispatched < s.lastApplied → s.lastApplied = s.startLa)
 
 /-- Start states: handler freshly built over a state machine whose `last_applied` is `L0`. -/
 structure Init (s : St) : Prop where
   noEmpty : ∀ p ∈ s.log, p ≠ Payload.empty
+  base0 : s.base = 0
   inLog : s.lastApplied ≤ s.log.length
   applied : s.applied = []
   sm : s.smLast = s.lastApplied
   queue : s.queue = []
   holding : s.holding = none
   disp : s.dispatched ≤ s.lastApplied
+  pending : s.pending = 0
+  notif : s.notif = []
+  start : s.startLa = s.lastApplied
 
-theorem inv_init (s : St) (h : Init s) : Inv s.lastApplied s.kv s := by
+theorem inv_init (s : St) (B : Nat) (h : Init s) : Inv s.lastApplied s.kv B s := by
   have hf : frontier s = s.lastApplied := by have := h.disp; unfold frontier; omega
-  refine ⟨h.noEmpty, Nat.le_refl _, by rw [hf]; exact h.inLog, ?_, ?_, h.sm, ?_, fun _ => h.holding⟩
+  refine ⟨h.noEmpty, h.base0, Nat.le_refl _, by rw [hf]; exact h.inLog, ?_, ?_, h.sm, ?_, fun _ => h.holding,
+    ⟨by rw [hf]; omega, by rw [h.pending]; omega, by rw [h.notif]; intro c hc; cases hc⟩,
+    ⟨by rw [h.start]; exact Nat.le_refl _, fun _ => h.start.symm⟩⟩
   · rw [h.applied, seg_self]; rfl
   · rw [seg_self]; rfl
   · intro _; unfold inflight; rw [hf, seg_self, h.queue, h.holding]; simp
 
-/-- Ops that append an entry never append one without payload (`entry.payload == None`). -/
-def WfOps (ops : List Op) : Prop := ∀ op ∈ ops, op ≠ Op.append Payload.empty
+/-- Schedules covered by the theorems: no entry without payload (`entry.payload == None`) is appended and
+    no snapshot is installed (see `snapshot_install_breaks_apply_order`, finding F60). -/
+def okOp : Op → Bool
+  | .append .empty => false
+  | .snap _ => false
+  | _ => true
+
+def WfOps (ops : List Op) : Prop := ∀ op ∈ ops, okOp op = true
+
+instance (ops : List Op) : Decidable (WfOps ops) := by unfold WfOps; exact inferInstance
+
+theorem foldl_updatePending_le (l : List Nat) (p B : Nat) (hp : p ≤ B) (hl : ∀ c ∈ l, c ≤ B) :
+    l.foldl updatePending p ≤ B := by
+  induction l generalizing p with
+  | nil => exact hp
+  | cons c l ih =>
+    rw [List.foldl_cons]
+    apply ih
+    · unfold updatePending; split
+      · exact hl c (by simp)
+      · exact hp
+    · exact fun x hx => hl x (List.mem_cons_of_mem _ hx)
 
 /-! ### Preservation, actor by actor -/
 
-theorem inv_append (L0 kv0 s p) (h : Inv L0 kv0 s) (hp : p ≠ Payload.empty) :
-    Inv L0 kv0 { s with log := s.log ++ [p] } := by
+theorem inv_append (L0 kv0 B s p) (h : Inv L0 kv0 B s) (hp : p ≠ Payload.empty) :
+    Inv L0 kv0 B { s with log := s.log ++ [p] } := by
   have hin := h.inLog
   have hle := h.le
   unfold frontier at hin
   have e1 : seg (s.log ++ [p]) L0 s.lastApplied = seg s.log L0 s.lastApplied :=
     seg_append_log _ _ _ _ (by omega)
-  refine ⟨?_, h.le, ?_, ?_, ?_, h.sm, ?_, h.deadHold⟩
+  refine ⟨?_, h.base0, h.le, ?_, ?_, ?_, h.sm, ?_, h.deadHold, h.bnd, h.stale⟩
   · intro q hq
     simp only [List.mem_append, List.mem_singleton] at hq
     rcases hq with hq | hq
@@ -87,7 +118,7 @@ theorem inv_append (L0 kv0 s p) (h : Inv L0 kv0 s) (hp : p ≠ Payload.empty) :
     rw [seg_append_log _ _ _ _ (by unfold frontier; omega)]
     exact this
 
-theorem inv_processBatch (L0 kv0 s) (h : Inv L0 kv0 s) : Inv L0 kv0 (processBatch s) := by
+theorem inv_processBatch (L0 kv0 B s) (h : Inv L0 kv0 B s) : Inv L0 kv0 B (processBatch s) := by
   unfold processBatch
   split
   case isTrue => exact h
@@ -106,8 +137,8 @@ theorem inv_processBatch (L0 kv0 s) (h : Inv L0 kv0 s) : Inv L0 kv0 (processBatc
   let E := frontier s
   let hi := min s.pending s.log.length
   have hEhi : E ≤ hi := by show frontier s ≤ min _ _; omega
-  have hes : entriesFrom s.log (frontier s + 1) s.pending = seg s.log E hi := by
-    rw [entriesFrom_eq_seg, seg_clamp]
+  have hes : entriesFrom s.log s.base (frontier s + 1) s.pending = seg s.log E hi := by
+    rw [h.base0, entriesFrom_eq_seg, seg_clamp]
     congr 1
     show min s.pending (max (frontier s) s.log.length) = min s.pending s.log.length
     omega
@@ -126,9 +157,22 @@ theorem inv_processBatch (L0 kv0 s) (h : Inv L0 kv0 s) : Inv L0 kv0 (processBatc
     rw [hdisp]
     have : E = max s.lastApplied s.dispatched := rfl
     split <;> omega
-  refine ⟨h.noEmpty, h.le, ?_, h.applied, h.kv, h.sm, ?_, h.deadHold⟩
+  refine ⟨h.noEmpty, h.base0, h.le, ?_, h.applied, h.kv, h.sm, ?_, h.deadHold, ⟨?_, h.bnd.2⟩, ⟨h.stale.1, ?_⟩⟩
+  rotate_right
+  · show dispatchedAfter s.dispatched sent < s.lastApplied → s.lastApplied = s.startLa
+    intro hlt
+    apply h.stale.2
+    rw [hdisp] at hlt
+    have : E = max s.lastApplied s.dispatched := rfl
+    split at hlt <;> omega
   · show max s.lastApplied (dispatchedAfter s.dispatched sent) ≤ s.log.length
     rw [hfr]; omega
+  rotate_left
+  · show max s.lastApplied (dispatchedAfter s.dispatched sent) ≤ max L0 B
+    rw [hfr]
+    have h1 := h.bnd.2.1
+    have h2 : hi ≤ s.pending := Nat.min_le_left _ _
+    omega
   · intro hd
     obtain ⟨hq, hqne⟩ := h.queue hd
     refine ⟨?_, ?_⟩
@@ -150,14 +194,26 @@ theorem inv_processBatch (L0 kv0 s) (h : Inv L0 kv0 s) : Inv L0 kv0 (processBatc
       · exact hqne b hb'
       · exact hsne b hb'
 
-theorem inv_run1 (L0 kv0 mb s) (h : Inv L0 kv0 s) : Inv L0 kv0 (run1 mb s) := by
+theorem inv_run1 (L0 kv0 B mb s) (h : Inv L0 kv0 B s) : Inv L0 kv0 B (run1 mb s) := by
   unfold run1
   split
   · exact h
-  · apply inv_processBatch
-    exact ⟨h.noEmpty, h.le, h.inLog, h.applied, h.kv, h.sm, h.queue, h.deadHold⟩
+  · rename_i c rest hn
+    apply inv_processBatch
+    have hall : ∀ x ∈ s.notif, x ≤ B := h.bnd.2.2
+    rw [hn] at hall
+    refine ⟨h.noEmpty, h.base0, h.le, h.inLog, h.applied, h.kv, h.sm, h.queue, h.deadHold, ⟨h.bnd.1, ?_, ?_⟩, h.stale⟩
+    · show (c :: rest.take (mb - 1)).foldl updatePending s.pending ≤ B
+      apply foldl_updatePending_le _ _ _ h.bnd.2.1
+      intro x hx
+      simp only [List.mem_cons] at hx
+      rcases hx with hx | hx
+      · subst hx; exact hall _ (by simp)
+      · exact hall x (List.mem_cons_of_mem _ (List.mem_of_mem_take hx))
+    · intro x hx
+      exact hall x (List.mem_cons_of_mem _ (List.mem_of_mem_drop hx))
 
-theorem inv_fetch (L0 kv0 s) (h : Inv L0 kv0 s) : Inv L0 kv0 (fetch s) := by
+theorem inv_fetch (L0 kv0 B s) (h : Inv L0 kv0 B s) : Inv L0 kv0 B (fetch s) := by
   unfold fetch
   split
   case isTrue => exact h
@@ -169,16 +225,16 @@ theorem inv_fetch (L0 kv0 s) (h : Inv L0 kv0 s) : Inv L0 kv0 (fetch s) := by
   case h_2 b q hqeq =>
   split
   case isTrue =>
-    exact ⟨h.noEmpty, h.le, h.inLog, h.applied, h.kv, h.sm, fun hc => by simp at hc, fun _ => hh⟩
+    exact ⟨h.noEmpty, h.base0, h.le, h.inLog, h.applied, h.kv, h.sm, fun hc => by simp at hc, fun _ => hh, h.bnd, h.stale⟩
   case isFalse =>
-    refine ⟨h.noEmpty, h.le, h.inLog, h.applied, h.kv, h.sm, ?_, fun hc => by rw [hd] at hc; simp at hc⟩
+    refine ⟨h.noEmpty, h.base0, h.le, h.inLog, h.applied, h.kv, h.sm, ?_, (fun hc => by rw [hd] at hc; simp at hc), h.bnd, h.stale⟩
     intro _
     have := h.queue hd
     unfold inflight at this ⊢
     rw [hh, hqeq] at this
     simpa [frontier] using this
 
-theorem inv_applyHeld (L0 kv0 s) (h : Inv L0 kv0 s) : Inv L0 kv0 (applyHeld s) := by
+theorem inv_applyHeld (L0 kv0 B s) (h : Inv L0 kv0 B s) : Inv L0 kv0 B (applyHeld s) := by
   unfold applyHeld
   split
   case h_1 => exact h
@@ -210,7 +266,14 @@ theorem inv_applyHeld (L0 kv0 s) (h : Inv L0 kv0 s) : Inv L0 kv0 (applyHeld s) :
   have hsplit := seg_split s.log L0 s.lastApplied (s.lastApplied + b.length) h.le (by omega) (by omega)
   have hfr : frontier s = max (s.lastApplied + b.length) s.dispatched := by
     unfold frontier at hle ⊢; omega
-  refine ⟨h.noEmpty, ?_, ?_, ?_, ?_, ?_, ?_, fun _ => rfl⟩
+  have hbnd : max (s.lastApplied + b.length) s.dispatched ≤ max L0 B := by
+    rw [← hfr]; exact h.bnd.1
+  have hst1 : s.startLa ≤ s.lastApplied + b.length := by have := h.stale.1; omega
+  have hst2 : s.dispatched < s.lastApplied + b.length → s.lastApplied + b.length = s.startLa := by
+    intro hlt
+    unfold frontier at hle
+    omega
+  refine ⟨h.noEmpty, h.base0, ?_, ?_, ?_, ?_, ?_, ?_, fun _ => rfl, ⟨hbnd, h.bnd.2⟩, ⟨hst1, hst2⟩⟩
   · show L0 ≤ s.lastApplied + b.length
     have := h.le; omega
   · show max (s.lastApplied + b.length) s.dispatched ≤ s.log.length
@@ -226,11 +289,16 @@ theorem inv_applyHeld (L0 kv0 s) (h : Inv L0 kv0 s) : Inv L0 kv0 (applyHeld s) :
     show (([] : List Batch) ++ s.queue).flatten = seg s.log (s.lastApplied + b.length) (max (s.lastApplied + b.length) s.dispatched)
     rw [← hfr]; simpa using hrest
 
-theorem inv_restart (L0 kv0 s) (h : Inv L0 kv0 s) : Inv L0 kv0 (restart s) := by
+theorem inv_restart (L0 kv0 B s) (h : Inv L0 kv0 B s) : Inv L0 kv0 B (restart s) := by
   unfold restart
   have hin := h.inLog
   unfold frontier at hin
-  refine ⟨h.noEmpty, ?_, ?_, ?_, ?_, rfl, ?_, fun _ => rfl⟩
+  refine ⟨h.noEmpty, h.base0, ?_, ?_, ?_, ?_, rfl, ?_, fun _ => rfl, ⟨?_, Nat.zero_le _, fun c hc => by cases hc⟩,
+    ⟨Nat.le_refl _, fun _ => rfl⟩⟩
+  rotate_right
+  · show max s.smLast 0 ≤ max L0 B
+    have := h.bnd.1
+    rw [h.sm]; unfold frontier at this; omega
   · show L0 ≤ s.smLast
     rw [h.sm]; exact h.le
   · show max s.smLast 0 ≤ s.log.length
@@ -244,23 +312,50 @@ theorem inv_restart (L0 kv0 s) (h : Inv L0 kv0 s) : Inv L0 kv0 (restart s) := by
     have : max s.smLast 0 = s.smLast := by omega
     rw [this, seg_self]; simp [inflight]
 
-theorem inv_step (L0 kv0 mb s op) (h : Inv L0 kv0 s) (hop : op ≠ Op.append Payload.empty) :
-    Inv L0 kv0 (step mb s op) := by
+theorem inv_step (L0 kv0 B mb s op) (h : Inv L0 kv0 B s)
+    (hop : okOp op = true)
+    (hB : ∀ c, op = Op.commit c → c ≤ B) : Inv L0 kv0 B (step mb s op) := by
   cases op with
-  | append p => exact inv_append L0 kv0 s p h (fun hp => hop (by rw [hp]))
-  | commit c => exact ⟨h.noEmpty, h.le, h.inLog, h.applied, h.kv, h.sm, h.queue, h.deadHold⟩
-  | run1 => exact inv_run1 L0 kv0 mb s h
-  | fetch => exact inv_fetch L0 kv0 s h
-  | apply => exact inv_applyHeld L0 kv0 s h
-  | restart => exact inv_restart L0 kv0 s h
+  | snap S => simp [okOp] at hop
+  | append p => exact inv_append L0 kv0 B s p h (fun hp => by subst hp; simp [okOp] at hop)
+  | commit c =>
+    refine ⟨h.noEmpty, h.base0, h.le, h.inLog, h.applied, h.kv, h.sm, h.queue, h.deadHold, ⟨h.bnd.1, h.bnd.2.1, ?_⟩, h.stale⟩
+    intro x hx
+    have hx' : x ∈ s.notif ++ [c] := hx
+    simp only [List.mem_append, List.mem_singleton] at hx'
+    rcases hx' with hx' | hx'
+    · exact h.bnd.2.2 x hx'
+    · subst hx'; exact hB _ rfl
+  | run1 => exact inv_run1 L0 kv0 B mb s h
+  | fetch => exact inv_fetch L0 kv0 B s h
+  | apply => exact inv_applyHeld L0 kv0 B s h
+  | restart => exact inv_restart L0 kv0 B s h
 
-theorem inv_exec (L0 kv0 mb s ops) (h : Inv L0 kv0 s) (hw : WfOps ops) : Inv L0 kv0 (exec mb s ops) := by
+theorem inv_exec (L0 kv0 B mb s ops) (h : Inv L0 kv0 B s) (hw : WfOps ops)
+    (hB : ∀ c, Op.commit c ∈ ops → c ≤ B) : Inv L0 kv0 B (exec mb s ops) := by
   induction ops generalizing s with
   | nil => exact h
   | cons op ops ih =>
     unfold exec
     rw [List.foldl_cons]
-    exact ih _ (inv_step L0 kv0 mb s op h (hw op (by simp))) (fun o ho => hw o (List.mem_cons_of_mem _ ho))
+    exact ih _ (inv_step L0 kv0 B mb s op h (hw op (by simp)) (fun c hc => hB c (by rw [hc]; simp)))
+      (fun o ho => hw o (List.mem_cons_of_mem _ ho)) (fun c hc => hB c (List.mem_cons_of_mem _ hc))
+
+/-- Highest commit index announced in a schedule. -/
+def maxCommit : List Op → Nat
+  | [] => 0
+  | .commit c :: r => max c (maxCommit r)
+  | _ :: r => maxCommit r
+
+theorem le_maxCommit (ops : List Op) (c : Nat) (h : Op.commit c ∈ ops) : c ≤ maxCommit ops := by
+  induction ops with
+  | nil => cases h
+  | cons op ops ih =>
+    simp only [List.mem_cons] at h
+    rcases h with h | h
+    · subst h; simp [maxCommit]; omega
+    · have := ih h
+      cases op <;> simp [maxCommit] <;> omega
 
 /-! ### The property -/
 
@@ -273,7 +368,7 @@ theorem apply_seq_contiguous (mb : Nat) (s0 : St) (ops : List Op) (h0 : Init s0)
     appliedIdx s = List.range' (s0.lastApplied + 1) (s.lastApplied - s0.lastApplied) ∧
     s0.lastApplied ≤ s.lastApplied ∧ s.smLast = s.lastApplied := by
   intro s
-  have h := inv_exec s0.lastApplied s0.kv mb s0 ops (inv_init s0 h0) hw
+  have h := inv_exec s0.lastApplied s0.kv (maxCommit ops) mb s0 ops (inv_init s0 _ h0) hw (le_maxCommit ops)
   refine ⟨?_, h.le, h.sm⟩
   have hin := h.inLog
   unfold frontier at hin
@@ -296,23 +391,343 @@ theorem kv_eq_fold (mb : Nat) (s0 : St) (ops : List Op) (h0 : Init s0) (hw : WfO
     s.kv = (seg s.log s0.lastApplied s.lastApplied).foldl (fun m e => applyACmd m (decode e.2)) s0.kv ∧
     s.applied = (seg s.log s0.lastApplied s.lastApplied).map dec := by
   intro s
-  have h := inv_exec s0.lastApplied s0.kv mb s0 ops (inv_init s0 h0) hw
+  have h := inv_exec s0.lastApplied s0.kv (maxCommit ops) mb s0 ops (inv_init s0 _ h0) hw (le_maxCommit ops)
   exact ⟨h.kv, h.applied⟩
 
+/-- **Only committed entries are applied**: `last_applied` (hence every applied index) never exceeds the
+    highest commit index announced so far — commit notifications may arrive late, duplicated or out of
+    order, but nothing is applied ahead of them. -/
+theorem applied_only_committed (mb : Nat) (s0 : St) (ops : List Op) (h0 : Init s0) (hw : WfOps ops) :
+    (exec mb s0 ops).lastApplied ≤ max s0.lastApplied (maxCommit ops) := by
+  have h := inv_exec s0.lastApplied s0.kv (maxCommit ops) mb s0 ops (inv_init s0 _ h0) hw (le_maxCommit ops)
+  have := h.bnd.1
+  unfold frontier at this
+  omega
+
+
+/-! ### A stale read of `last_applied` inside `process_batch` is harmless -/
+
+/-- `process_batch` reads `last_applied` (in `pending_range()`) and `dispatched_up_to` at two different
+    instants; the SM worker may store a newer `last_applied` in between (or the read may be of any value
+    the counter held since the handler was built). The outcome is the same as with an up-to-date read:
+    the start of the dispatched range is decided by `dispatched_up_to`. -/
+theorem stale_last_applied_read_harmless (L0 kv0 B s) (h : Inv L0 kv0 B s) (lread : Nat)
+    (h1 : s.startLa ≤ lread) (h2 : lread ≤ s.lastApplied) :
+    processBatchRead lread s = processBatch s := by
+  unfold processBatchRead processBatch
+  by_cases hd : s.workerDead = true
+  · simp [hd]
+  · simp only [hd, Bool.false_eq_true, if_false]
+    by_cases hlt : s.dispatched < s.lastApplied
+    · -- nothing applied since the handler was built: the read cannot be stale
+      have := h.stale.2 hlt
+      have : lread = s.lastApplied := by omega
+      rw [this]
+    · have hge : s.lastApplied ≤ s.dispatched := by omega
+      have e1 : max (lread + 1) (s.dispatched + 1) = s.dispatched + 1 := by omega
+      have e2 : max (s.lastApplied + 1) (s.dispatched + 1) = s.dispatched + 1 := by omega
+      by_cases hp1 : s.pending > s.lastApplied
+      · have hp2 : s.pending > lread := by omega
+        simp only [hp1, hp2, if_true, e1, e2]
+      · by_cases hp2 : s.pending > lread
+        · have hsp : s.dispatched + 1 > s.pending := by omega
+          simp only [hp1, hp2, if_true, if_false, e1, hsp]
+        · simp only [hp1, hp2, if_false]
+
+/-! ### Config entries reach membership exactly once, in order -/
+
+/-- What one dispatching `process_batch` call does to the frontier and to the membership-call list. -/
+theorem processBatch_effect (L0 kv0 B s) (h : Inv L0 kv0 B s) (hnd : s.workerDead = false)
+    (hpl : s.pending > s.lastApplied) (hsp : ¬ frontier s + 1 > s.pending) :
+    ∃ k, frontier s + k ≤ min s.pending s.log.length ∧
+      frontier (processBatch s) = frontier s + k ∧
+      (processBatch s).cfgCalls = s.cfgCalls ++
+        ((seg s.log (frontier s) (min s.pending s.log.length)).foldl pbStep {}).cfg ∧
+      (((seg s.log (frontier s) (min s.pending s.log.length)).foldl pbStep {}).err = false →
+        frontier s + k = min s.pending s.log.length) ∧
+      (processBatch s).log = s.log := by
+  have hstart : max (s.lastApplied + 1) (s.dispatched + 1) = frontier s + 1 := by
+    unfold frontier; omega
+  have hin := h.inLog
+  have hEhi : frontier s ≤ min s.pending s.log.length := by omega
+  have hes : entriesFrom s.log s.base (frontier s + 1) s.pending = seg s.log (frontier s) (min s.pending s.log.length) := by
+    rw [h.base0, entriesFrom_eq_seg, seg_clamp]
+    congr 1
+    omega
+  have hne : ∀ e ∈ seg s.log (frontier s) (min s.pending s.log.length), e.2 ≠ Payload.empty :=
+    fun e he => h.noEmpty _ (seg_snd_mem _ _ _ e he)
+  obtain ⟨hsne, rest, hpre, hrest⟩ := processEntries_prefix _ hne
+  obtain ⟨hk, hflat, hrestseg⟩ := seg_append_inj s.log (frontier s) (min s.pending s.log.length) _ rest
+    (Nat.min_le_right _ _) hEhi hpre.symm
+  have hdisp := dispatchedAfter_seg s.log _ s.dispatched (frontier s) _ hsne hflat
+    (by omega) (by unfold frontier; omega)
+  refine ⟨_, hk, ?_, ?_, ?_, ?_⟩
+  · unfold processBatch
+    simp only [hnd, Bool.false_eq_true, if_false, hpl, if_true, hstart, hsp, hes]
+    show max s.lastApplied (dispatchedAfter s.dispatched _) = _
+    rw [hdisp]
+    unfold frontier
+    split <;> omega
+  · unfold processBatch
+    simp only [hnd, Bool.false_eq_true, if_false, hpl, if_true, hstart, hsp, hes]
+  · intro herr
+    have hr := hrest herr
+    rw [hr] at hpre
+    have hlen := congrArg List.length hpre
+    rw [seg_length _ _ _ (Nat.min_le_right _ _)] at hlen
+    simp only [List.append_nil] at hlen
+    omega
+  · unfold processBatch
+    simp only [hnd, Bool.false_eq_true, if_false, hpl, if_true, hstart, hsp, hes]
+
+theorem applyHeld_frontier (L0 kv0 B s) (h : Inv L0 kv0 B s) : frontier (applyHeld s) = frontier s := by
+  unfold applyHeld
+  split
+  case h_1 => rfl
+  case h_2 b hhold =>
+  have hd : s.workerDead = false := by
+    cases hdd : s.workerDead with
+    | false => rfl
+    | true => have := h.deadHold hdd; rw [hhold] at this; simp at this
+  obtain ⟨hq, hqne⟩ := h.queue hd
+  unfold inflight at hq hqne
+  rw [hhold] at hq hqne
+  simp only [Option.toList_some, List.singleton_append] at hq hqne
+  have hin := h.inLog
+  have hbne : b ≠ [] := hqne b (by simp)
+  have hblen : 0 < b.length := List.length_pos_iff.mpr hbne
+  simp only [List.flatten_cons] at hq
+  obtain ⟨hle, hb, _⟩ := seg_append_inj s.log s.lastApplied (frontier s) b s.queue.flatten hin
+    (by unfold frontier; omega) hq
+  have hlast : lastIdx b = s.lastApplied + b.length := by
+    rw [hb, seg_length _ _ _ (by omega)]
+    have : s.lastApplied + (s.lastApplied + b.length - s.lastApplied) = s.lastApplied + b.length := by omega
+    rw [this]
+    exact lastIdx_seg _ _ _ (by omega) (by omega)
+  have hbe : b.isEmpty = false := by
+    cases b with
+    | nil => exact absurd rfl hbne
+    | cons _ _ => rfl
+  simp only [hbe, Bool.false_eq_true, if_false, hlast]
+  unfold frontier at hle ⊢
+  show max (s.lastApplied + b.length) s.dispatched = max s.lastApplied s.dispatched
+  omega
+
+/-- Schedules without restart. -/
+def NoRestart (ops : List Op) : Prop := ∀ op ∈ ops, op ≠ Op.restart
+
+/-- No config change of the schedule is rejected by membership. -/
+def AllCfgOk (ops : List Op) : Prop := ∀ op ∈ ops, op ≠ Op.append (Payload.config false)
+
+/-- Invariant for the membership-call list (`F0` = frontier at the start). -/
+structure CfgInv (F0 : Nat) (s : St) : Prop where
+  ok : ∀ p ∈ s.log, p ≠ Payload.config false
+  le : F0 ≤ frontier s
+  calls : s.cfgCalls = cfgOf (seg s.log F0 (frontier s))
+
+/-- State `process_batch` starts from in a `run` iteration that received `c` first. -/
+def run1State (mb : Nat) (s : St) (c : Nat) (rest : List Nat) : St :=
+  { s with notif := rest.drop (mb - 1), pending := (c :: rest.take (mb - 1)).foldl updatePending s.pending }
+
+theorem run1_nil (mb : Nat) (s : St) (h : s.notif = []) : run1 mb s = s := by
+  unfold run1; rw [h]
+
+theorem run1_cons (mb : Nat) (s : St) (c : Nat) (rest : List Nat) (h : s.notif = c :: rest) :
+    run1 mb s = processBatch (run1State mb s c rest) := by
+  unfold run1 run1State; rw [h]
+
+theorem cfginv_step (L0 kv0 B F0 mb s op) (h : Inv L0 kv0 B s) (hc : CfgInv F0 s)
+    (h1 : op ≠ Op.restart) (h2 : op ≠ Op.append (Payload.config false)) (h3 : ∀ S, op ≠ Op.snap S) :
+    CfgInv F0 (step mb s op) := by
+  have hin := h.inLog
+  cases op with
+  | restart => exact absurd rfl h1
+  | snap S => exact absurd rfl (h3 S)
+  | append p =>
+    refine ⟨?_, hc.le, ?_⟩
+    · intro q hq
+      have hq' : q ∈ s.log ++ [p] := hq
+      simp only [List.mem_append, List.mem_singleton] at hq'
+      rcases hq' with hq' | hq'
+      · exact hc.ok q hq'
+      · subst hq'; exact fun hp => h2 (by rw [hp])
+    · show s.cfgCalls = cfgOf (seg (s.log ++ [p]) F0 (frontier s))
+      rw [seg_append_log _ _ _ _ hin]; exact hc.calls
+  | commit c => exact ⟨hc.ok, hc.le, hc.calls⟩
+  | fetch =>
+    show CfgInv F0 (fetch s)
+    unfold fetch
+    split
+    · exact hc
+    · split
+      · exact hc
+      · split
+        · exact ⟨hc.ok, hc.le, hc.calls⟩
+        · exact ⟨hc.ok, hc.le, hc.calls⟩
+  | apply =>
+    show CfgInv F0 (applyHeld s)
+    have hf := applyHeld_frontier L0 kv0 B s h
+    have hlog : (applyHeld s).log = s.log := by unfold applyHeld; split <;> rfl
+    have hcalls : (applyHeld s).cfgCalls = s.cfgCalls := by unfold applyHeld; split <;> rfl
+    exact ⟨by rw [hlog]; exact hc.ok, by rw [hf]; exact hc.le, by rw [hcalls, hlog, hf]; exact hc.calls⟩
+  | run1 =>
+    show CfgInv F0 (run1 mb s)
+    cases hn : s.notif with
+    | nil => rw [run1_nil mb s hn]; exact hc
+    | cons c rest =>
+      rw [run1_cons mb s c rest hn]
+      generalize hs1 : run1State mb s c rest = s1
+      unfold run1State at hs1
+      have hInv1 : Inv L0 kv0 B s1 := by
+        have := inv_run1 L0 kv0 B mb s h
+        subst hs1
+        have hall : ∀ x ∈ s.notif, x ≤ B := h.bnd.2.2
+        rw [hn] at hall
+        refine ⟨h.noEmpty, h.base0, h.le, h.inLog, h.applied, h.kv, h.sm, h.queue, h.deadHold, ⟨h.bnd.1, ?_, ?_⟩, h.stale⟩
+        · show (c :: rest.take (mb - 1)).foldl updatePending s.pending ≤ B
+          apply foldl_updatePending_le _ _ _ h.bnd.2.1
+          intro x hx
+          simp only [List.mem_cons] at hx
+          rcases hx with hx | hx
+          · subst hx; exact hall _ (by simp)
+          · exact hall x (List.mem_cons_of_mem _ (List.mem_of_mem_take hx))
+        · intro x hx
+          exact hall x (List.mem_cons_of_mem _ (List.mem_of_mem_drop hx))
+      have hc1 : CfgInv F0 s1 := by subst hs1; exact ⟨hc.ok, hc.le, hc.calls⟩
+      -- case analysis on process_batch
+      by_cases hdead : s1.workerDead = true
+      · have : processBatch s1 = s1 := by unfold processBatch; simp [hdead]
+        rw [this]; exact hc1
+      · have hnd : s1.workerDead = false := by simpa using hdead
+        by_cases hpl : s1.pending > s1.lastApplied
+        · by_cases hsp : frontier s1 + 1 > s1.pending
+          · have : processBatch s1 = s1 := by
+              unfold processBatch
+              have hstart : max (s1.lastApplied + 1) (s1.dispatched + 1) = frontier s1 + 1 := by
+                unfold frontier; omega
+              simp [hnd, hpl, hstart, hsp]
+            rw [this]; exact hc1
+          · obtain ⟨k, hk, hfr, hcalls, herr, hlog⟩ := processBatch_effect L0 kv0 B s1 hInv1 hnd hpl hsp
+            have hokseg : ∀ e ∈ seg s1.log (frontier s1) (min s1.pending s1.log.length),
+                e.2 ≠ Payload.config false := fun e he => hc1.ok _ (seg_snd_mem _ _ _ e he)
+            obtain ⟨hnoerr, hcfg⟩ := pb_fold_cfg _ {} hokseg rfl
+            have hfull := herr hnoerr
+            refine ⟨by rw [hlog]; exact hc1.ok, by rw [hfr]; have := hc1.le; omega, ?_⟩
+            rw [hcalls, hcfg, hc1.calls, hlog, hfr, hfull]
+            simp only [List.nil_append]
+            rw [← cfgOf_append]
+            congr 1
+            exact (seg_split s1.log F0 (frontier s1) (min s1.pending s1.log.length) hc1.le (by omega)
+              hInv1.inLog).symm
+        · have : processBatch s1 = s1 := by unfold processBatch; simp [hnd, hpl]
+          rw [this]; exact hc1
+
+theorem cfg_exec (L0 kv0 B F0 mb) (ops : List Op) (s : St) (hi : Inv L0 kv0 B s) (hc : CfgInv F0 s)
+    (hw : WfOps ops) (hnr : NoRestart ops) (hok : AllCfgOk ops) (hB : ∀ c, Op.commit c ∈ ops → c ≤ B) :
+    CfgInv F0 (exec mb s ops) := by
+  induction ops generalizing s with
+  | nil => exact hc
+  | cons op ops ih =>
+    show CfgInv F0 (exec mb (step mb s op) ops)
+    apply ih
+    · exact inv_step L0 kv0 B mb s op hi (hw op (by simp)) (fun c hc => hB c (by rw [hc]; simp))
+    · exact cfginv_step L0 kv0 B F0 mb s op hi hc (hnr op (by simp)) (hok op (by simp)) (fun S hS => by have := hw op (by simp); subst hS; simp [okOp] at this)
+    · exact fun o ho => hw o (List.mem_cons_of_mem _ ho)
+    · exact fun o ho => hnr o (List.mem_cons_of_mem _ ho)
+    · exact fun o ho => hok o (List.mem_cons_of_mem _ ho)
+    · exact fun c hc => hB c (List.mem_cons_of_mem _ hc)
+
+/-- **Config entries are applied to membership exactly once and in log order** (restart-free schedules in
+    which membership accepts every change): the list of `Membership::apply_config_change` calls is exactly
+    the Config entries among the dispatched log entries `L0+1 ..= frontier`, in order. (What happens when a
+    change is rejected is `pb_fold_cfg_after_error`: later Config entries of the same `process_batch` call
+    are skipped for good.) -/
+theorem cfg_applied_exact (mb : Nat) (s0 : St) (ops : List Op) (h0 : Init s0) (hw : WfOps ops)
+    (hnr : NoRestart ops) (hok : AllCfgOk ops) (hlog : ∀ p ∈ s0.log, p ≠ Payload.config false)
+    (hc0 : s0.cfgCalls = []) :
+    let s := exec mb s0 ops
+    s.cfgCalls = cfgOf (seg s.log s0.lastApplied (frontier s)) := by
+  intro s
+  have hf0 : frontier s0 = s0.lastApplied := by have := h0.disp; unfold frontier; omega
+  have hc0' : CfgInv s0.lastApplied s0 := by
+    refine ⟨hlog, by rw [hf0]; exact Nat.le_refl _, ?_⟩
+    rw [hc0, hf0, seg_self]; rfl
+  exact (cfg_exec s0.lastApplied s0.kv (maxCommit ops) s0.lastApplied mb ops s0
+    (inv_init s0 _ h0) hc0' hw hnr hok (le_maxCommit ops)).calls
+
+/-! ### The monitor predicate holds on the model; snapshot install breaks it (F60) -/
+
+theorem walk_number (i : Nat) (ps : List Payload) :
+    walk i ((number (i + 1) ps).map dec) = some (i + ps.length) := by
+  induction ps generalizing i with
+  | nil => rfl
+  | cons p ps ih =>
+    have h := ih (i + 1)
+    have e : i + 1 + ps.length = i + (ps.length + 1) := by omega
+    rw [e] at h
+    cases p <;> simp [number, dec, decode, walk, h]
+
+/-- The decidable order predicate the check evaluates on the real code's observation holds on every
+    snapshot-free schedule of the model. -/
+theorem sm_inputs_in_order (mb : Nat) (s0 : St) (ops : List Op) (h0 : Init s0) (hw : WfOps ops) :
+    walk s0.lastApplied (exec mb s0 ops).applied = some (exec mb s0 ops).lastApplied := by
+  have h := inv_exec s0.lastApplied s0.kv (maxCommit ops) mb s0 ops (inv_init s0 _ h0) hw (le_maxCommit ops)
+  have hin := h.inLog
+  unfold frontier at hin
+  rw [h.applied]
+  unfold seg
+  rw [walk_number]
+  congr 1
+  have := h.le
+  simp [List.length_take, List.length_drop]; omega
+
+/-- C06 order statement with snapshot installs allowed. -/
+def OrderStatement : Prop :=
+  ∀ (mb : Nat) (ops : List Op), (∀ op ∈ ops, op ≠ Op.append Payload.empty) →
+    (walk 0 (exec mb {} ops).applied).isSome = true
+
+/-- F60 witness: entries 1,2 are dispatched and held by the SM worker; a snapshot covering 1..4 is installed;
+    the worker then applies the stale batch on top of the snapshot state. -/
+def f60Schedule : List Op :=
+  [.append (.cmd (.put 1 1)), .append (.cmd (.put 2 2)), .append (.cmd (.put 1 3)), .append (.cmd (.put 1 4)),
+   .commit 2, .run1, .fetch, .snap 4, .apply]
+
+theorem f60_effect :
+    (exec 10 {} f60Schedule).applied.map (·.1) = [4, 1, 2] ∧
+    (exec 10 {} f60Schedule).kv = [(2, 2), (1, 1)] ∧     -- key 1 is back to entry 1's value; the snapshot had 4
+    (exec 10 {} f60Schedule).smLast = 2 := by decide
+
+/-- F61 witness: entries 1..3 applied, then a snapshot with last_included = 1 is installed. -/
+def f61Schedule : List Op :=
+  [.append (.cmd (.put 1 1)), .append (.cmd (.put 2 2)), .append (.cmd (.put 3 3)),
+   .commit 3, .run1, .fetch, .apply, .snap 1]
+
+theorem f61_effect :
+    (exec 10 {} f61Schedule).kv = [(1, 1)] ∧ (exec 10 {} f61Schedule).smLast = 1 ∧
+    (exec 10 {} f61Schedule).lastApplied = 3 ∧ (exec 10 {} f61Schedule).dispatched = 3 ∧
+    walk 0 (exec 10 {} f61Schedule).applied = none := by decide
+
+/-- **As coded the order statement is false once snapshot installs are schedulable** (F60): installing a
+    snapshot does not invalidate batches already handed to the SM worker. -/
+theorem order_statement_false : ¬ OrderStatement := by
+  intro h
+  have := h 10 f60Schedule (by decide)
+  revert this
+  decide
 
 /-! ### Non-vacuity and the F10 regression witness -/
 
 /-- Seven Noop entries (each Noop flushes its own batch). -/
 def w7 : St := { log := List.replicate 7 Payload.noop }
 
-example : Init w7 := ⟨by decide, by decide, rfl, rfl, rfl, rfl, by decide⟩
+example : Init w7 := ⟨by decide, rfl, by decide, rfl, rfl, rfl, rfl, by decide, rfl, rfl, rfl⟩
 
 /-- The F10 schedule: commit=5 handled, then commit=7 handled, before the worker applies anything;
     afterwards the worker drains everything. -/
 def f10Schedule : List Op :=
   [.commit 5, .run1, .commit 7, .run1] ++ (List.replicate 12 [Op.fetch, Op.apply]).flatten
 
-example : WfOps f10Schedule := by unfold WfOps; decide
+example : WfOps f10Schedule := by decide
 
 /-- On the current code (with `dispatched_up_to`) the witness schedule applies 1..7 once each. -/
 theorem f10_fixed : appliedIdx (exec 10 w7 f10Schedule) = [1, 2, 3, 4, 5, 6, 7] := by decide
@@ -321,7 +736,7 @@ theorem f10_fixed : appliedIdx (exec 10 w7 f10Schedule) = [1, 2, 3, 4, 5, 6, 7] 
 def processBatchOld (s : St) : St :=
   if s.workerDead then s else
   if s.pending > s.lastApplied then
-    let a := (entriesFrom s.log (s.lastApplied + 1) s.pending).foldl pbStep {}
+    let a := (entriesFrom s.log s.base (s.lastApplied + 1) s.pending).foldl pbStep {}
     { s with queue := s.queue ++ pbFinish a, cfgCalls := s.cfgCalls ++ a.cfg }
   else s
 
